@@ -673,6 +673,26 @@ fn eval_inner(line: &str, out: &mut String) -> R<()> {
                 }
             }
         }
+        "foreign_enums" => {
+            // C16: Month / Weekday <-> chrono / time enums are bijections preserving the month / ISO weekday number
+            t.end()?;
+            let mut bad: Vec<String> = Vec::new();
+            for n in 1u32..=12 {
+                let m = Month::try_from(n).unwrap();
+                let cm = chrono::Month::from(m);
+                if cm.number_from_month() != n || Month::from(cm) != m { bad.push(format!("chrono-month-{n}")); }
+                let tm = time::Month::from(m);
+                if u32::from(tm as u8) != n || Month::from(tm) != m { bad.push(format!("time-month-{n}")); }
+            }
+            for n in 1u32..=7 {
+                let w = Weekday::try_from(n).unwrap();
+                let cw = chrono::Weekday::from(w);
+                if cw.number_from_monday() != n || Weekday::from(cw) != w { bad.push(format!("chrono-weekday-{n}")); }
+                let tw = time::Weekday::from(w);
+                if u32::from(tw.number_from_monday()) != n || Weekday::from(tw) != w { bad.push(format!("time-weekday-{n}")); }
+            }
+            if bad.is_empty() { out.push_str("ok"); } else { out.push_str(&bad.join(",")); }
+        }
         "months" => {
             let ops = check_iter_ops(t.tok()?)?;
             t.end()?;
